@@ -293,3 +293,73 @@ def group_role(rx: Regex, gid: int) -> str:
 def wrapped(regexp: str, tail: str) -> str:
     """The pattern RegexpBaseToken.get compiles."""
     return f'^({regexp})({tail})$'
+
+
+def _nullable(items) -> bool:
+    for op, av in items:
+        if op in (sre_c.LITERAL, sre_c.NOT_LITERAL, sre_c.IN, sre_c.ANY, sre_c.CATEGORY, sre_c.RANGE):
+            return False
+        if op in (sre_c.MAX_REPEAT, sre_c.MIN_REPEAT, getattr(sre_c, 'POSSESSIVE_REPEAT', None)):
+            if av[0] > 0 and not _nullable(av[2]):
+                return False
+        elif op is sre_c.SUBPATTERN:
+            if not _nullable(av[3]):
+                return False
+        elif op is sre_c.BRANCH:
+            if not any(_nullable(b) for b in av[1]):
+                return False
+        elif op in (sre_c.AT, sre_c.ASSERT, sre_c.ASSERT_NOT):
+            continue
+        elif op is sre_c.GROUPREF:
+            return False
+        elif op is getattr(sre_c, 'ATOMIC_GROUP', None):
+            if not _nullable(av):
+                return False
+        else:
+            return False
+    return True
+
+
+def _unwrap(item):
+    """strip capturing / non-capturing group wrappers around a single item"""
+    op, av = item
+    while op is sre_c.SUBPATTERN and len(av[3]) == 1:
+        op, av = av[3][0]
+    return op, av
+
+
+def exponential_repeats(pattern: str) -> list:
+    """unbounded repeats whose body is `(X* Y)` with X an unbounded repeat and everything else in the body nullable -- the
+    (a*)* shape: when the overall match fails the matcher tries exponentially many ways of splitting a run between the inner
+    and the outer repeat.  Returns descriptions of the offending repeats (empty = none found).  Possessive repeats and atomic
+    groups do not backtrack and are not reported."""
+    out = []
+    try:
+        tree = sre_parse.parse(pattern)
+    except re.error as e:
+        raise AnalysisError('X', f'regex {pattern!r} does not compile: {e}')
+
+    def walk(items):
+        for op, av in items:
+            if op in (sre_c.MAX_REPEAT, sre_c.MIN_REPEAT):
+                mn, mx, body = av
+                if mx == MAXREPEAT:
+                    seq = list(body)
+                    if len(seq) == 1 and seq[0][0] is sre_c.SUBPATTERN:
+                        seq = list(seq[0][1][3])
+                    for i, it in enumerate(seq):
+                        iop, iav = _unwrap(it)
+                        if iop in (sre_c.MAX_REPEAT, sre_c.MIN_REPEAT) and iav[1] == MAXREPEAT:
+                            rest = seq[:i] + seq[i + 1:]
+                            if _nullable(rest):
+                                out.append(f'unbounded repeat of a body that is itself an unbounded repeat plus optional parts')
+                walk(body)
+            elif op is sre_c.SUBPATTERN:
+                walk(av[3])
+            elif op is sre_c.BRANCH:
+                for b in av[1]:
+                    walk(b)
+            elif op in (sre_c.ASSERT, sre_c.ASSERT_NOT):
+                walk(av[1])
+    walk(tree)
+    return out
